@@ -1,4 +1,5 @@
 import NA.Gen.Sinks
+import NA.Model.MaskFlow
 /-!
 # C17: which lemma covers which sink call site
 
@@ -51,99 +52,103 @@ def cover : List (Nat × Cover) := [
   (3576850227, .wrapper),  -- session: errlog.DoLog: fmt.Fprintln(s)
   (1920489586, .clean),  -- runlog: errlog.SetStderrLog: errlog.Abort("Can't %v", err)
   (3237979617, .wrapper),  -- runlog: errlog.PrintWithMarker: fmt.Fprintln(m + out)
-  (722468467, .maskError),  -- runlog: httpdevice.TryReachableHTTPLogin: errlog.Warning("%v", err)
+  (700362208, .maskError),  -- runlog: httpdevice.TryReachableHTTPLogin: errlog.Warning("%v", err)
   (3227160347, .nsxLogin),  -- session: nsx.State.LoadDevice$lit1: errlog.DoLog("POST " + uri)
   (2387804195, .nsxLogin),  -- session: nsx.State.LoadDevice$lit1: errlog.DoLog(v.Encode())
-  (4181794324, .nsxLogin),  -- session: nsx.State.LoadDevice$lit1: errlog.DoLog(resp.Status)
-  (3517491638, .clean),  -- session: nsx.State.LoadDevice: errlog.DoLog(string(out))
-  (1788849806, .clean),  -- session: nsx.State.ApplyCommands: errlog.DoLog(fmt.Sprintf("URI: %s %s", c.method, c.url))
-  (3671529160, .clean),  -- session: nsx.State.ApplyCommands: errlog.DoLog("DATA: " + string(c.postData))
-  (4271414601, .clean),  -- session: nsx.State.ApplyCommands: errlog.DoLog("RESP: " + string(resp))
-  (2888775463, .clean),  -- runlog: nsx.rulesPair.equalizeGroups$equalize: errlog.Abort("Rule %s references group %s not defined in Netspoc config", rb.)
+  (511489133, .nsxLogin),  -- session: nsx.State.LoadDevice$lit1: errlog.DoLog(resp.Status)
+  (1169988799, .clean),  -- session: nsx.State.LoadDevice: errlog.DoLog(string(out))
+  (2052658711, .clean),  -- session: nsx.State.ApplyCommands: errlog.DoLog(fmt.Sprintf("URI: %s %s", c.method, c.url))
+  (4288076833, .clean),  -- session: nsx.State.ApplyCommands: errlog.DoLog("DATA: " + string(c.postData))
+  (3834011480, .clean),  -- session: nsx.State.ApplyCommands: errlog.DoLog("RESP: " + string(resp))
+  (2577016526, .clean),  -- runlog: nsx.rulesPair.equalizeGroups$equalize: errlog.Abort("Rule %s references group %s not defined in Netspoc config", rb.)
+  (1117039505, .clean),  -- runlog: panos.PanConfig.MergeSpoc: errlog.Abort("%v", err)
+  (3803006649, .clean),  -- runlog: panos.checkNameClash$clash: errlog.Abort("Name clash for %s '%s' in vsys '%s'", typ, name, v2.Name)
   (4200236841, .maskUri),  -- session: panos.State.getAPIKey: errlog.DoLog(loggedURI)
-  (3182134139, .maskBody),  -- session: panos.State.getAPIKey: errlog.DoLog(loggedBody)
-  (2353578507, .maskApi),  -- session: panos.State.httpPrefixGetLog: errlog.DoLog(loggedURI)
-  (3443646476, .clean),  -- session: panos.State.httpPrefixGetLog: errlog.DoLog(string(body))
-  (1872131003, .clean),  -- runlog: panos.vsysInfo.checkGroupCycle$visit: errlog.Abort("Address-group %s of %s must not be member of itself", name, v.v)
+  (2697921176, .maskBody),  -- session: panos.State.getAPIKey: errlog.DoLog(loggedBody)
+  (3936129588, .maskApi),  -- session: panos.State.httpPrefixGetLog: errlog.DoLog(loggedURI)
+  (2229408357, .clean),  -- session: panos.State.httpPrefixGetLog: errlog.DoLog(string(body))
+  (1840648610, .clean),  -- runlog: panos.vsysInfo.checkGroupCycle$visit: errlog.Abort("Address-group %s of %s must not be member of itself", name, v.v)
   (1916444384, .wrapper),  -- session: console.Conn.logString: (*os.File).Write([]byte(s))
-  (2006197458, .deviceOutput),  -- session: console.Conn.expectLog: console.Conn.logString(out)
+  (834731291, .deviceOutput),  -- session: console.Conn.expectLog: console.Conn.logString(out)
   (3330218861, .deviceOutput),  -- runlog: console.Conn.WaitLogin: errlog.Abort("while waiting for login prompt '%s': %v", prompt, err)
   (571890465, .deviceOutput),  -- runlog: console.Conn.WaitShort: errlog.Abort("while waiting for prompt '%s': %v", prompt, err)
   (3014076404, .deviceOutput),  -- runlog: console.Conn.waitPrompt: errlog.Abort("while waiting for prompt '%s': %v", re, err)
-  (2871064972, .deviceOutput),  -- session: console.Conn.TryPrompt: console.Conn.logString(out)
-  (809453244, .deviceOutput),  -- runlog: console.Conn.StripStdPrompt: errlog.Abort("Missing prompt '%s' in response:\n'%v'", c.promptRE, s)
-  (1339996420, .deviceOutput),  -- runlog: console.Conn.StripEcho: errlog.Abort("Got unexpected echo in response to '%s':\n%v", cShort, s)
+  (2975503333, .deviceOutput),  -- session: console.Conn.TryPrompt: console.Conn.logString(out)
+  (1216371541, .deviceOutput),  -- runlog: console.Conn.StripStdPrompt: errlog.Abort("Missing prompt '%s' in response:\n'%v'", c.promptRE, s)
+  (3433759965, .deviceOutput),  -- runlog: console.Conn.StripEcho: errlog.Abort("Got unexpected echo in response to '%s':\n%v", cShort, s)
   (1217757606, .clean),  -- runlog: linux.config.MergeSpoc: errlog.Info("Adding all chains of table %q", tName)
   (2896584212, .clean),  -- runlog: linux.config.MergeSpoc: errlog.Info("Adding chain %q of table %q", cName, tName)
   (138981777, .clean),  -- runlog: linux.config.MergeSpoc: errlog.Abort("Must not redefine chain %q of table %q from rawdata", cName, tN)
   (2544861981, .clean),  -- runlog: linux.State.loginEnable: errlog.Abort("Authentication failed")
-  (166773128, .clean),  -- runlog: linux.State.checkDeviceName: errlog.Abort("Wrong device name: %q, expected: %q", out, name)
+  (2348113633, .clean),  -- runlog: linux.State.checkDeviceName: errlog.Abort("Wrong device name: %q, expected: %q", out, name)
   (357488966, .clean),  -- runlog: linux.State.ApplyCommands: errlog.Info("Changing iptables running config")
-  (4072276580, .clean),  -- runlog: linux.State.cmd$check: errlog.Abort("Got unexpected output from '%s':\n%s", ci, out)
-  (2395279203, .clean),  -- runlog: linux.State.cmd: errlog.Abort("%s failed (exit status)", strings.Replace(c, "\n", "\\N ", 1))
+  (1227911293, .clean),  -- runlog: linux.State.cmd$check: errlog.Abort("Got unexpected output from '%s':\n%s", ci, out)
+  (2540034090, .clean),  -- runlog: linux.State.cmd: errlog.Abort("%s failed (exit status)", strings.Replace(c, "\n", "\\N ", 1))
   (3687608776, .clean),  -- runlog: linux.State.findIPTablesRestoreCmd: errlog.Abort("Can't find path of 'iptables-restore'")
   (2521483344, .clean),  -- runlog: linux.createTemp: errlog.Abort("can't %v", err)
-  (1636464064, .clean),  -- tempfile: linux.State.writeStartup: fmt.Fprintln(entry)
+  (590331065, .clean),  -- tempfile: linux.State.writeStartup: fmt.Fprintln(entry)
   (650155503, .clean),  -- runlog: linux.State.putScp: errlog.Info("Executing %s", cmd)
   (3392866934, .clean),  -- runlog: linux.State.putScp: errlog.Abort("%s failed: %v", cmd, err)
-  (2373912744, .clean),  -- runlog: linux.parseRoutes: errlog.Abort("Unexpected route: %s", line)
-  (2424245601, .clean),  -- runlog: linux.parseRoutes: errlog.Abort("Unexpected route: %s", line)
-  (2407467982, .clean),  -- runlog: linux.parseRoutes: errlog.Abort("Unexpected route: %s", line)
-  (4078003088, .clean),  -- runlog: linux.State.parseIPTables: errlog.Abort("Found chain policy outside of table: %q", line)
-  (927867087, .clean),  -- runlog: linux.State.parseIPTables: errlog.Abort("Found rule outside of table: %q", line)
-  (1788832812, .clean),  -- runlog: linux.State.parseIPTables: errlog.Abort("Unsupported command %q", words[0])
-  (371065354, .clean),  -- runlog: linux.State.parseIPTables: errlog.Abort("Incomplete command %q", line)
-  (2897825767, .clean),  -- runlog: linux.State.parseIPTables: errlog.Abort("Must define policy before adding rules of chain %q", name)
-  (477753802, .clean),  -- runlog: linux.State.parseIPTables: errlog.Abort("Unexpected trailing '!' in line\n %s", line)
-  (3887307948, .clean),  -- runlog: linux.State.parseIPTables: errlog.Abort("Unknown command: %q", line)
+  (2771926209, .clean),  -- runlog: linux.parseRoutes: errlog.Abort("Unexpected route: %s", line)
+  (2721593352, .clean),  -- runlog: linux.parseRoutes: errlog.Abort("Unexpected route: %s", line)
+  (2738370971, .clean),  -- runlog: linux.parseRoutes: errlog.Abort("Unexpected route: %s", line)
+  (699153998, .clean),  -- runlog: linux.State.parseIPTables: errlog.Abort("Duplicate definition of table %q", name)
+  (500415177, .clean),  -- runlog: linux.State.parseIPTables: errlog.Abort("Found chain policy outside of table: %q", line)
+  (2053131115, .clean),  -- runlog: linux.State.parseIPTables: errlog.Abort("Duplicate definition of chain %q", name)
+  (3575798326, .clean),  -- runlog: linux.State.parseIPTables: errlog.Abort("Found rule outside of table: %q", line)
+  (558206277, .clean),  -- runlog: linux.State.parseIPTables: errlog.Abort("Unsupported command %q", words[0])
+  (4036031923, .clean),  -- runlog: linux.State.parseIPTables: errlog.Abort("Incomplete command %q", line)
+  (1952996750, .clean),  -- runlog: linux.State.parseIPTables: errlog.Abort("Must define policy before adding rules of chain %q", name)
+  (2117441651, .clean),  -- runlog: linux.State.parseIPTables: errlog.Abort("Unexpected trailing '!' in line\n %s", line)
+  (2696918469, .clean),  -- runlog: linux.State.parseIPTables: errlog.Abort("Unknown command: %q", line)
   (169398385, .clean),  -- runlog: cisco.Config.MergeSpoc: errlog.Abort("Command '%s' not supported in raw file", prefix)
-  (475242251, .clean),  -- runlog: cisco.Config.MergeSpoc: errlog.Warning(w)
-  (1554030343, .clean),  -- runlog: cisco.mergeRefs: errlog.Abort("Name clash for '%s %s' from raw", prefix, bName)
-  (1213704602, .clean),  -- runlog: cisco.mergeRefs: errlog.Abort("Must reference '%s %s' only once in raw", prefix, bName)
-  (1570807962, .clean),  -- runlog: cisco.mergeRefs: errlog.Abort("Name clash for '%s %s' from raw", prefix, bName)
-  (1196926983, .clean),  -- runlog: cisco.mergeRefs: errlog.Abort("Must reference '%s %s' only once in raw", prefix, bName)
+  (3566671858, .clean),  -- runlog: cisco.Config.MergeSpoc: errlog.Warning(w)
+  (4128988398, .clean),  -- runlog: cisco.mergeRefs: errlog.Abort("Name clash for '%s %s' from raw", prefix, bName)
+  (2816566019, .clean),  -- runlog: cisco.mergeRefs: errlog.Abort("Must reference '%s %s' only once in raw", prefix, bName)
+  (4112210779, .clean),  -- runlog: cisco.mergeRefs: errlog.Abort("Name clash for '%s %s' from raw", prefix, bName)
+  (2833343638, .clean),  -- runlog: cisco.mergeRefs: errlog.Abort("Must reference '%s %s' only once in raw", prefix, bName)
   (3641969052, .clean),  -- runlog: cisco.State.LoginEnable: errlog.Abort("Authentication for enable mode failed")
   (2272147273, .clean),  -- runlog: cisco.State.LoginEnable: errlog.Abort("Authentication failed")
   (2472794488, .clean),  -- runlog: cisco.State.diffIOSACLs: errlog.Abort("Can't insert more than 9999 ACL lines at once")
-  (820898933, .clean),  -- runlog: cisco.State.diffRoutes: errlog.Info("No %s routing specified%s, leaving untouched", ipv, forVRF)
-  (210809395, .clean),  -- runlog: cisco.State.addCmds$add: errlog.Abort("'%s %s' must be transferred manually", prefix, name)
-  (1002718276, .clean),  -- runlog: cisco.matchCryptoMap$getPeer: errlog.Abort("Missing peer or dynamic in crypto map %s %d", name, seq)
-  (448219887, .clean),  -- runlog: cisco.dstOfRoute$need: errlog.Abort("Incomplete command: %s", c.orig)
-  (3626627582, .clean),  -- runlog: cisco.dstOfRoute: errlog.Abort("Missing IPv6 prefix in: %s", c.orig)
-  (534067665, .clean),  -- runlog: cisco.State.checkASAInterfaces: errlog.Warning("Interface '%s' on device is not known by Netspoc", name)
-  (751750452, .clean),  -- runlog: cisco.State.checkIOSInterfaces: errlog.Warning("Different address defined for interface %s:" + " Device: %q, Ne)
-  (1953379027, .clean),  -- runlog: cisco.State.checkIOSInterfaces: errlog.Warning("Interface '%s' on device is not known by Netspoc", name)
-  (3870535312, .clean),  -- runlog: cisco.State.alignVRFs$routeVRF: errlog.Abort("Incomplete command: %s", c.orig)
+  (975308388, .clean),  -- runlog: cisco.State.diffRoutes: errlog.Info("No %s routing specified%s, leaving untouched", ipv, forVRF)
+  (3030466106, .clean),  -- runlog: cisco.State.addCmds$add: errlog.Abort("'%s %s' must be transferred manually", prefix, name)
+  (3743337501, .clean),  -- runlog: cisco.matchCryptoMap$getPeer: errlog.Abort("Missing peer or dynamic in crypto map %s %d", name, seq)
+  (2502471318, .clean),  -- runlog: cisco.dstOfRoute$need: errlog.Abort("Incomplete command: %s", c.orig)
+  (263699527, .clean),  -- runlog: cisco.dstOfRoute: errlog.Abort("Missing IPv6 prefix in: %s", c.orig)
+  (3118206848, .clean),  -- runlog: cisco.State.checkASAInterfaces: errlog.Warning("Interface '%s' on device is not known by Netspoc", name)
+  (3467279565, .clean),  -- runlog: cisco.State.checkIOSInterfaces: errlog.Warning("Different address defined for interface %s:" + " Device: %q, Ne)
+  (3326433818, .clean),  -- runlog: cisco.State.checkIOSInterfaces: errlog.Warning("Interface '%s' on device is not known by Netspoc", name)
+  (1175934409, .clean),  -- runlog: cisco.State.alignVRFs$routeVRF: errlog.Abort("Incomplete command: %s", c.orig)
   (57027769, .clean),  -- runlog: cisco.State.alignVRFs: errlog.Info("Leaving VRF %s untouched", vrf)
-  (2938217857, .clean),  -- runlog: cisco.postprocessParsed$setTransRef: errlog.Abort("Too many names (max. 11) in: %s", c.orig)
-  (164854726, .clean),  -- runlog: cisco.postprocessParsed: errlog.Abort("Incomplete command: %s", c.orig)
+  (698495856, .clean),  -- runlog: cisco.postprocessParsed$setTransRef: errlog.Abort("Too many names (max. 11) in: %s", c.orig)
+  (2889098575, .clean),  -- runlog: cisco.postprocessParsed: errlog.Abort("Incomplete command: %s", c.orig)
   (3451097736, .clean),  -- runlog: cisco.postprocessParsed: errlog.Abort("aaa-server %s must not use different values" + " in 'ldap-attri)
-  (2724902283, .clean),  -- runlog: cisco.postprocessACLParts$need: errlog.Abort("Incomplete command: %s", c.orig)
+  (873580146, .clean),  -- runlog: cisco.postprocessACLParts$need: errlog.Abort("Incomplete command: %s", c.orig)
   (4176661979, .clean),  -- runlog: ios.State.LoadDevice: errlog.Info("Requesting device config")
   (3049987104, .clean),  -- runlog: ios.State.LoadDevice: errlog.Info("Got device config")
   (919505617, .clean),  -- runlog: ios.State.LoadDevice: errlog.Info("Parsed device config")
-  (1440195828, .clean),  -- runlog: ios.State.checkDeviceName: errlog.Abort("Wrong device name: %q, expected: %q", out, name)
+  (4076438413, .clean),  -- runlog: ios.State.checkDeviceName: errlog.Abort("Wrong device name: %q, expected: %q", out, name)
   (4209456557, .clean),  -- runlog: ios.State.writeMem: errlog.Abort("write mem: startup-config open failed - giving up")
-  (2208592034, .clean),  -- runlog: ios.State.writeMem: errlog.Abort("write mem: unexpected result: %s", out)
-  (3583489752, .clean),  -- runlog: ios.State.cmd$check: errlog.Abort("Got unexpected output from '%s':\n%s", ci, out)
-  (3593978784, .clean),  -- runlog: ios.isValidOutput: errlog.Warning("Got unexpected output from '%s':\n%s", cmd, line)
+  (2112386411, .clean),  -- runlog: ios.State.writeMem: errlog.Abort("write mem: unexpected result: %s", out)
+  (1015451057, .clean),  -- runlog: ios.State.cmd$check: errlog.Abort("Got unexpected output from '%s':\n%s", ci, out)
+  (3282946265, .clean),  -- runlog: ios.isValidOutput: errlog.Warning("Got unexpected output from '%s':\n%s", cmd, line)
   (2290859593, .clean),  -- runlog: ios.State.stripReloadBanner: errlog.Info("Found banner before output, expecting another prompt")
   (1374261373, .clean),  -- runlog: ios.State.stripReloadBanner: errlog.Info("Found banner after output, checking another prompt")
   (1613414424, .clean),  -- runlog: ios.State.stripReloadBanner: errlog.Info("- Found prompt")
   (377219855, .clean),  -- runlog: asa.State.LoadDevice: errlog.Info("Requesting device config")
   (2824083316, .clean),  -- runlog: asa.State.LoadDevice: errlog.Info("Got device config")
   (2755228629, .clean),  -- runlog: asa.State.LoadDevice: errlog.Info("Parsed device config")
-  (3367788304, .clean),  -- runlog: asa.State.checkDeviceName: errlog.Abort("Wrong device name: %q, expected: %q", out, name)
-  (1382910144, .clean),  -- runlog: asa.State.ApplyCommands: errlog.Abort("Command 'write memory' failed, missing [OK] in output:\n%s", ou)
-  (3645884492, .clean),  -- runlog: asa.State.cmd$check: errlog.Abort("Got unexpected output from '%s':\n%s", ci, out)
-  (780858324, .clean),  -- runlog: asa.isValidOutput: errlog.Warning("Got unexpected output from '%s':\n%s", cmd, line)
+  (1279131209, .clean),  -- runlog: asa.State.checkDeviceName: errlog.Abort("Wrong device name: %q, expected: %q", out, name)
+  (1723310009, .clean),  -- runlog: asa.State.ApplyCommands: errlog.Abort("Command 'write memory' failed, missing [OK] in output:\n%s", ou)
+  (994375333, .clean),  -- runlog: asa.State.cmd$check: errlog.Abort("Got unexpected output from '%s':\n%s", ci, out)
+  (3255740205, .clean),  -- runlog: asa.isValidOutput: errlog.Warning("Got unexpected output from '%s':\n%s", cmd, line)
   (2784897780, .clean),  -- runlog: device.getRealDevice: errlog.Abort("Unexpected model %q in file %s.info\n", info.Model, fname)
-  (2102085953, .fc17),  -- runlog: device.ApproveOrCompare$lit1: errlog.Abort("%v", err)
-  (757218993, .clean),  -- runlog: device.CompareFiles$lit1: errlog.Abort("%v", err)
-  (706886136, .clean),  -- runlog: device.CompareFiles$lit1: errlog.Abort("%v", err)
-  (1435905492, .clean),  -- stdout: device.CompareFiles$lit1: fmt.Print(s.ShowChanges())
-  (2781534751, .clean),  -- runlog: device.state.compare: errlog.Warning("%v", w)
-  (1268453089, .clean),  -- session: device.state.compare: fmt.Fprint(s.ShowChanges())
+  (89461454, .fc17),  -- runlog: device.ApproveOrCompare$lit1: errlog.Abort("%v", err)
+  (2232016160, .clean),  -- runlog: device.CompareFiles$lit1: errlog.Abort("%v", err)
+  (2282349017, .clean),  -- runlog: device.CompareFiles$lit1: errlog.Abort("%v", err)
+  (528105773, .clean),  -- stdout: device.CompareFiles$lit1: fmt.Print(s.ShowChanges())
+  (2884083270, .clean),  -- runlog: device.state.compare: errlog.Warning("%v", w)
+  (2575302032, .clean),  -- session: device.state.compare: fmt.Fprint(s.ShowChanges())
   (2701900043, .clean),  -- session: device.state.applyCommands: errlog.DoLog("No changes applied")
   (1255930830, .clean),  -- runlog: device.state.showCompareInfo: errlog.Info("comp: device unchanged")
   (749016665, .clean),  -- runlog: device.state.showCompareInfo: errlog.Info("comp: *** device changed ***")
@@ -234,6 +239,20 @@ def unclassifiedSources : List Nat := (errSources.filter fun s => !sourceOk s).m
 
 /-- Flows whose error text still shows a secret at the sink. -/
 def rawFlows : List (Nat × Nat) := (errFlows.filter fun f => f.raw).map fun f => (f.source, f.site)
+
+/-! ## runs derived from the regenerated steps -/
+
+open NA.Mask in
+/-- A regenerated event as a step of the derived run model: raw secrets keep their label, everything
+else (configuration, device output, redacted values) is label 0. -/
+def stepOf (e : Event) : NA.Mask.Step :=
+  { isSink := e.kind == 0, site := e.site, deps := 0 :: e.secrets }
+
+/-- The steps of a group of packages (1 nsx, 2 ssh back ends + console, 3 panos, 4 the rest). -/
+def stepsOf (grp : Nat) : List NA.Mask.Step := (events.filter fun e => e.grp == grp).map stepOf
+
+/-- Kind and raw secrets of the steps of one function, in source order. -/
+def shapeOf (fnId : Nat) : List (Nat × List Nat) := (events.filter fun e => e.fnId == fnId).map fun e => (e.kind, e.secrets)
 
 /-- Sink kinds that occur (kindCode of `Site`). -/
 def kindsPresent : List Nat := [1, 2, 3, 4, 5, 6].filter fun k => sites.any fun s => s.kindCode == k
